@@ -119,7 +119,12 @@ where
         should_continue: impl std::ops::Fn() -> bool + Clone,
     ) -> V {
         debug!("solve_root_goal(canonical_goal={:?})", canonical_goal);
-        assert!(self.stack.is_empty());
+        if !self.stack.is_empty() || !self.search_graph.is_empty() {
+            // A previous solve unwound (e.g. a database callback panicked)
+            // and left in-progress goals behind; they are meaningless now.
+            self.stack.clear();
+            self.search_graph.clear();
+        }
         self.interrupted = false;
         let minimums = &mut Minimums::new();
         self.solve_goal(canonical_goal, minimums, solver_stuff, should_continue)
